@@ -18,7 +18,10 @@ CAPS = ("and who already tests with unusual and algebraically structured inputs,
         "that did not exist before (probed at compile time), thousands of consecutive seedings, timers that count in steps, a timer "
         "callback that itself uses another generator (same-thread re-entrancy), a REAL clock (std Instant/SystemTime) that jumps by "
         "milliseconds to hours between readings, signed-integer formats such as TOML, non-output calls (timer_stats, test_timer, "
-        "set_rounds, clone, ==, serialisation) mixed into every history ")
+        "set_rounds, clone, ==, serialisation) mixed into every history, single requests of more than 2^32 bytes, timers frozen for "
+        "millions of readings that then resume, states far along in the stream (block counters near 2^24, 2^32, 2^56, 2^64), "
+        "gigabytes of output from one instance, sources that deliver a short key followed by zeros, constructions that fail half way, "
+        "runs on freshly spawned threads ")
 for f in sorted(glob.glob(f"/tmp/seed/C??-{prev}.full.txt")):
     pid = os.path.basename(f)[:3]
     s = open(f).read().replace(f"{pid}-{prev}", f"{pid}-{new}")
